@@ -207,17 +207,24 @@ def m_throttle_with_mapper(eng, sid, pick):
         if st["sub"] is not None:
             st["sub"].cancel()
 
+        mine = {"sub": None, "fired": False}
+
         def th(k, x):
+            if mine["fired"]:
+                return  # only the throttle observable's first notification counts
+            mine["fired"] = True
             if k == "E":
                 eng.emit("E", x)
                 return
             if st["has"] and st["id"] == my:
                 st["has"] = False
                 eng.emit("N", v)
-            if st["sub"] is not None:
-                st["sub"].cancel()
+            if mine["sub"] is not None:
+                mine["sub"].cancel()
 
-        st["sub"] = eng.subscribe(pick(v), th)
+        mine["sub"] = st["sub"] = eng.subscribe(pick(v), th)
+        if mine["fired"]:
+            mine["sub"].cancel()  # it fired inside its own subscribe()
 
     def on_completed():
         if st["sub"] is not None:
